@@ -14,7 +14,7 @@
    states reachable by ANY history; the invariant-based theorems above are for group-free histories. *)
 From FRP Require Import Model.SrvRes Model.ConnWrap Proofs.PortsProofs Proofs.SrvResBase Proofs.SrvResProofs Proofs.SrvResThms
   Proofs.ConnWrapProofs Model.StackTypes Model.ConnWrapSites Proofs.ConnWrapSitesProofs gen.GenStacks
-  Model.UdpLoop Proofs.UdpLoopProofs Proofs.SrvResGroups.
+  Model.UdpLoop Proofs.UdpLoopProofs Proofs.SrvResGroups Model.RelTypes Proofs.RelMirror gen.GenRelease.
 Open Scope Z_scope.
 
 (* "all histories" is literally a fold_left of the step function *)
@@ -117,6 +117,21 @@ Theorem C10_quota_equals_live_weight : forall ranges maxp maxpool s c ct,
   reach ranges maxp maxpool s -> 0 < maxp -> ss_get c (sr_sess s) = Some ct -> ss_used ct = wsum (ss_pxys ct).
 Proof. exact quota_equals_live_weight. Qed.
 Print Assumptions C10_quota_equals_live_weight.
+
+(* the release theorem over the FULL vector of keyed entries — sockets, routes of the three route tables
+   (other proxies' routes on the same domain with another routeByHTTPUser included), visitor listeners,
+   NAT-hole clients — for proxy names that are arbitrary strings: after CloseProxy of n every slot k holds
+   exactly what it held before unless n held it, in which case it is free ("held by nobody it should not be,
+   and nothing of anybody else released"); every other name stays registered, n's name is free, groups and
+   foreign sockets untouched *)
+Theorem C10_close_changes_exactly_own_entries : forall ranges maxp maxpool s c n s' ct o,
+  reach ranges maxp maxpool s -> ss_get c (sr_sess s) = Some ct -> nm_get n (ss_pxys ct) = Some o ->
+  y_close maxp s c n = Some s' ->
+  (forall k, al_get slot_eqb k (sr_res s') = after_stop_of n (al_get slot_eqb k (sr_res s))) /\
+  (forall m, m <> n -> nm_get m (sr_names s') = nm_get m (sr_names s)) /\ nm_get n (sr_names s') = None /\
+  sr_grp s' = sr_grp s /\ sr_squat s' = sr_squat s.
+Proof. exact close_changes_exactly_own_entries. Qed.
+Print Assumptions C10_close_changes_exactly_own_entries.
 
 (* others_untouched: in every reachable state a registered proxy has every resource its object recorded,
    under its own name; and stopping ANOTHER proxy (CloseProxy), ending ANOTHER session, or any registration
@@ -334,6 +349,16 @@ Theorem C10_udp_old_close_order_refuted :
   u_close s = CDone /\ u_loop s = LDone /\ u_open s = [1%nat].
 Proof. exact udp_old_close_order_refuted. Qed.
 Print Assumptions C10_udp_old_close_order_refuted.
+
+(* the helpers the model mirrors are, in TODAY's source, what they were when the model was written: translator unit
+   t10rel regenerates gen/GenRelease.v (effect digests: table writes, deletes, calls, defers, guards in source
+   order; renames, comments and log texts do not matter) and this reflective obligation compares it with the
+   digests pinned in Proofs/RelMirror.v beside the model function each one is mirrored by.  Routers.Del that also
+   deletes the domain entry, an stcp / sudp Run that closes on its error path, an xtcp Close without the
+   synchronous CloseClient, a configured name that is not the wire name: each makes this theorem fail *)
+Theorem C10_helpers_are_what_the_model_mirrors : rel_check rel_pinned rel_funcs = true.
+Proof. vm_compute. reflexivity. Qed.
+Print Assumptions C10_helpers_are_what_the_model_mirrors.
 
 (* the shapes before the two repairs never reached the transport (what regress/revert_8f52e6b and
    revert_ff68771 restore) *)
